@@ -136,6 +136,42 @@ def find_loops(msk, lo, hi):
     return out
 
 
+def make_pub(txt):
+    """Visibility-only rewrite of a struct/enum item: the item and all its fields become `pub`."""
+    msk = L.mask(txt)
+    m = re.search(r'\b(struct|enum)\b', msk)
+    head = re.sub(r'\bpub\s*(\([^)]*\))?\s*', '', txt[:m.start()])
+    rest = txt[m.start():]
+    rmask = msk[m.start():]
+    if m.group(1) == 'enum':
+        return head + 'pub ' + rest
+    k = 0
+    while rmask[k] not in '{(;':
+        k += 1
+    if rmask[k] == ';':
+        return head + 'pub ' + rest
+    close = L.match_close(rmask, k)
+    inner, imask = rest[k + 1:close], rmask[k + 1:close]
+    # split fields at depth-0 commas
+    fields, depth, start = [], 0, 0
+    for i, ch in enumerate(imask):
+        if ch in '([{<':
+            depth += 1
+        elif ch in ')]}' or (ch == '>' and imask[i - 1] != '-'):
+            depth -= 1
+        elif ch == ',' and depth == 0:
+            fields.append(inner[start:i]); start = i + 1
+    fields.append(inner[start:])
+    out = []
+    for f in fields:
+        if not f.strip():
+            out.append(f); continue
+        lead = f[:len(f) - len(f.lstrip())]
+        body = re.sub(r'^pub\s*(\([^)]*\))?\s*', '', f.lstrip())
+        out.append(lead + 'pub ' + body)
+    return head + 'pub ' + rest[:k + 1] + ','.join(out) + rest[close:]
+
+
 class Gen:
     def __init__(self, repo, template_path, canary=False):
         self.repo = repo
@@ -174,6 +210,10 @@ class Gen:
                 i += 1
                 continue
             d = s[3:].strip()
+            if d.startswith('include '):
+                inc = os.path.normpath(os.path.join(os.path.dirname(self.tpath), d[8:].strip()))
+                lines[i:i + 1] = open(inc, encoding='utf-8').read().split('\n')
+                continue
             if d.startswith('file '):
                 m = re.match(r'file\s+(\w+)\s*=\s*(\S+)', d)
                 self.files[m.group(1)] = SourceFile(self.repo, m.group(2))
@@ -228,6 +268,9 @@ class Gen:
                 raise Undecided('lost anchor: subst text %r not in item %s' % (a, m.group(3)))
             txt = txt.replace(a, b)
             self.rewrites.append((kind, 'item ' + m.group(3), a, b))
+        if opts.get('pubfields'):
+            txt = make_pub(txt)
+            self.rewrites.append(('VIS', 'item ' + m.group(3), 'field/item visibility', 'pub'))
         if opts.get('attrs'):
             self.emit(indent + opts['attrs'])
         if opts.get('prefix'):
